@@ -12,7 +12,9 @@ RULE = ("(a) extracted model vs implementation on random grammars over every mod
         "escapes, 0 <= loc <= len (+1 after an end anchor), str()/line/lineno/col/column/found/mark_input_line()/explain() evaluate and "
         "agree with the string at loc; non-trivial = input of length >= 1 on a grammar of >= 2 nodes")
 TRUSTED = pcommon.TRUSTED_PARSE + [
-    "the location bound 0 <= loc <= len+1 is checked on the implementation by the oracle, not proved (GoToColumn violates it: F-06)",
+    "the location bound 0 <= loc <= len+1 is proved on the model for _parse / parse_string on grammars without GoToColumn "
+    "(C06_loc_bound_partial, C06_parse_string_loc_bound_partial; GoToColumn violates it: F-06, C06_loc_bound_gotocolumn_refuted); "
+    "for the other entry points, unmodelled classes and GoToColumn grammars it is checked on the implementation by the oracle only",
     "classes outside the model (Regex, QuotedString, CloseMatch, Dict, IndentedBlock, helpers) are exercised by the oracle only"]
 
 BOUNDARY = ["", " ", "\n", "\t", "a", "ab", " a", "a ", "a\n", "\na", "a\tb", "\t\ta", "é", "aé", "a b", "ab\n\nab", "(", "(a", "a,",
